@@ -32,10 +32,21 @@ pub struct TlsCase {
     pub cycle: Vec<usize>,
     pub write_limit: usize,
     pub close_notify: bool,
+    /// the client's raw byte stream ends after this many bytes (a cut connection)
+    pub raw_limit: Option<usize>,
+    /// 0 = the classic SSLRequest / handshake response; otherwise a seed for legal variations of
+    /// both (capability masks, max-packet, charset, MariaDB-style extended capabilities in the
+    /// reserved bytes, trailing auth bytes)
+    pub hs_variant: u64,
     /// replaces the plaintext the client sends inside the TLS session (malformed-input workloads)
     pub app_override: Option<Vec<u8>>,
     /// (sequence id of the SSLRequest, sequence id of the handshake response inside TLS); (1, 2) for ordinary clients
     pub seqs: (u8, u8),
+    /// after_authentication fails with this token
+    pub auth_reject: Option<u64>,
+    /// the client hands the handshake response and every command to its TLS layer separately, so
+    /// that each travels in a record of its own
+    pub record_per_command: bool,
 }
 
 pub fn run_tls(m: &TlsMaterial, c: &TlsCase) -> Result<TlsObs, String> {
@@ -45,9 +56,47 @@ pub fn run_tls(m: &TlsMaterial, c: &TlsCase) -> Result<TlsObs, String> {
     // property of this harness's client, not of the server under test
     conn.set_buffer_limit(None);
     let caps = 0x003f_a685 | wire::CLIENT_SSL;
-    let sslreq = wire::ssl_request(caps, 1 << 24, 0x21);
-    let (mut app, _) = wire::frame(&wire::handshake41(caps, 1 << 24, 0x21, &c.user, b"\0"), c.seqs.1);
+    let mut sslreq = wire::ssl_request(caps, 1 << 24, 0x21);
+    let mut inner = wire::handshake41(caps, 1 << 24, 0x21, &c.user, b"\0");
+    if c.hs_variant != 0 {
+        let mut r = Rng::for_case(c.hs_variant, "tls-hs", 0);
+        let caps = match r.below(4) {
+            0 => 0xFFFF_FFFFu32,
+            1 => wire::CLIENT_SSL,
+            2 => r.next() as u32,
+            _ => caps,
+        } | wire::CLIENT_SSL;
+        let (mp, cs) = (r.next() as u32, r.below(256) as u8);
+        sslreq = wire::ssl_request(caps, mp, cs);
+        // bytes 9..32 of the payload are "reserved"; MariaDB connectors put their extended
+        // capabilities into the last four of them when the server does not claim CLIENT_MYSQL
+        match r.below(3) {
+            0 => {}
+            1 => {
+                let x = (r.next() as u32 | 4).to_le_bytes();
+                sslreq[28..32].copy_from_slice(&x);
+            }
+            _ => {
+                for b in sslreq[9..32].iter_mut() {
+                    *b = r.below(256) as u8;
+                }
+            }
+        }
+        let tl = r.below(40) as usize;
+        let mut tail = r.bytes(tl);
+        tail.insert(0, 0);
+        // the response inside TLS repeats the capabilities (a client may also send other ones)
+        let caps2 = if r.bool() { caps } else { r.next() as u32 | wire::CLIENT_SSL };
+        inner = wire::handshake41(caps2, if r.bool() { mp } else { r.next() as u32 }, cs, &c.user, &tail);
+        if r.bool() {
+            let k = inner.len().min(32);
+            inner[9..k].copy_from_slice(&sslreq[9..k]);
+        }
+    }
+    let (mut app, _) = wire::frame(&inner, c.seqs.1);
+    let mut chunks = Vec::new();
     for cmd in &c.cmds {
+        chunks.push(app.len());
         app.extend(wire::frame(&cmd.payload, cmd.seq).0);
     }
     if let Some(o) = &c.app_override {
@@ -59,9 +108,14 @@ pub fn run_tls(m: &TlsMaterial, c: &TlsCase) -> Result<TlsObs, String> {
     w.write_limit = c.write_limit;
     w.close_notify = c.close_notify;
     w.ssl_seq = c.seqs.0;
+    w.raw_limit = c.raw_limit;
+    if c.record_per_command && c.app_override.is_none() {
+        w.app_chunks = chunks;
+    }
     let clock = w.clock.clone();
     let world = Rc::new(RefCell::new(w));
     let (mut shim, log) = ScriptShim::new(clock, c.scripts.clone());
+    shim.auth_reject = c.auth_reject;
     shim.tls = match c.server_mode {
         0 => Some(m.server_optional.clone()),
         1 => Some(m.server_required.clone()),
@@ -313,7 +367,7 @@ pub fn run(ctx: &Ctx) -> Report {
         if quit {
             cmds.push(Cmd::quit());
         }
-        let c = TlsCase { tls13, with_cert, server_mode: mode, user: CANARY_USER.to_vec(), cmds, scripts, first_cut: cut, cycle: vec![], write_limit: usize::MAX, close_notify: true, app_override: None, seqs: (1, 2) };
+        let c = TlsCase { tls13, with_cert, server_mode: mode, user: CANARY_USER.to_vec(), cmds, scripts, first_cut: cut, cycle: vec![], write_limit: usize::MAX, close_notify: true, raw_limit: None, hs_variant: 0, app_override: None, seqs: (1, 2), auth_reject: None, record_per_command: false };
         let o = match run_tls(mref, &c) {
             Ok(o) => o,
             Err(e) => {
@@ -356,7 +410,7 @@ pub fn run(ctx: &Ctx) -> Report {
             cmds.push(Cmd::quit());
         }
         let first_cut = if rng.bool() { rng.range(1, 60) as usize } else { 0 };
-        let c = TlsCase { tls13, with_cert, server_mode: mode, user: CANARY_USER.to_vec(), cmds, scripts, first_cut, cycle, write_limit: wl, close_notify, app_override: None, seqs: (1, 2) };
+        let c = TlsCase { tls13, with_cert, server_mode: mode, user: CANARY_USER.to_vec(), cmds, scripts, first_cut, cycle, write_limit: wl, close_notify, raw_limit: None, hs_variant: if rng.bool() { rng.next() | 1 } else { 0 }, app_override: None, seqs: (1, 2), auth_reject: None, record_per_command: rng.bool() };
         let o = match run_tls(mref, &c) {
             Ok(o) => o,
             Err(e) => {
@@ -393,7 +447,7 @@ pub fn run(ctx: &Ctx) -> Report {
         if !close_notify {
             cmds.push(Cmd::quit());
         }
-        let c = TlsCase { tls13: rng.bool(), with_cert: rng.bool(), server_mode: 0, user: CANARY_USER.to_vec(), cmds, scripts: m.conv.scripts.clone(), first_cut: if rng.bool() { rng.range(1, 60) as usize } else { 0 }, cycle: if rng.bool() { vec![] } else { vec![rng.range(1, 2000) as usize] }, write_limit: wl, close_notify, app_override: None, seqs: (1, 2) };
+        let c = TlsCase { tls13: rng.bool(), with_cert: rng.bool(), server_mode: 0, user: CANARY_USER.to_vec(), cmds, scripts: m.conv.scripts.clone(), first_cut: if rng.bool() { rng.range(1, 60) as usize } else { 0 }, cycle: if rng.bool() { vec![] } else { vec![rng.range(1, 2000) as usize] }, write_limit: wl, close_notify, raw_limit: None, hs_variant: 0, app_override: None, seqs: (1, 2), auth_reject: None, record_per_command: rng.bool() };
         let o = match run_tls(mref, &c) {
             Ok(o) => o,
             Err(e) => {
@@ -417,7 +471,7 @@ pub fn run(ctx: &Ctx) -> Report {
     let r = par_cases(ctx, "C18", "refusals", n, |rng, i, rep| {
         let mode = if i % 2 == 0 { 3 } else { 1 };
         let (cmds, scripts) = tls_script(rng, 2);
-        let c = TlsCase { tls13: rng.bool(), with_cert: false, server_mode: mode, user: CANARY_USER.to_vec(), cmds, scripts, first_cut: rng.below(80) as usize, cycle: if rng.bool() { vec![] } else { vec![rng.range(1, 40) as usize] }, write_limit: usize::MAX, close_notify: true, app_override: None, seqs: (1, 2) };
+        let c = TlsCase { tls13: rng.bool(), with_cert: false, server_mode: mode, user: CANARY_USER.to_vec(), cmds, scripts, first_cut: rng.below(80) as usize, cycle: if rng.bool() { vec![] } else { vec![rng.range(1, 40) as usize] }, write_limit: usize::MAX, close_notify: true, raw_limit: None, hs_variant: 0, app_override: None, seqs: (1, 2), auth_reject: None, record_per_command: false };
         let o = match run_tls(mref, &c) {
             Ok(o) => o,
             Err(e) => {
